@@ -189,7 +189,8 @@ namespace nmtools::meta
                 && index_array_or_index_ndarray
                 && is_index_v<axis_t>
             ) {
-                if constexpr (is_bounded_array_v<shape_t> || is_constant_index_array_v<shape_t>) {
+                // a clipped shape bounds the source only: the number of indices may exceed the bound at axis
+                if constexpr (is_bounded_array_v<shape_t> || is_constant_index_array_v<shape_t> || is_clipped_index_array_v<shape_t>) {
                     constexpr auto N = len_v<shape_t>;
                     using type = nmtools_array<index_t,N>;
                     return as_value_v<type>;
